@@ -37,6 +37,9 @@ pub open spec fn get_u32<T: Tag>(h: Header<T>, tag: u32) -> Option<u32> {
 pub open spec fn get_u32arr<T: Tag>(h: Header<T>, tag: u32) -> Option<Seq<u32>> {
     match entry_of(h, tag) { Some(e) => match e.data { IndexData::Int32(d) => Some(d@), _ => None }, None => None }
 }
+pub open spec fn get_u64arr<T: Tag>(h: Header<T>, tag: u32) -> Option<Seq<u64>> {
+    match entry_of(h, tag) { Some(e) => match e.data { IndexData::Int64(d) => Some(d@), _ => None }, None => None }
+}
 pub open spec fn get_u64<T: Tag>(h: Header<T>, tag: u32) -> Option<u64> {
     match entry_of(h, tag) {
         Some(e) => match e.data { IndexData::Int64(d) => if d@.len() > 0 { Some(d@[0]) } else { None }, _ => None },
@@ -78,6 +81,12 @@ impl<T: Tag> Header<T> {
     #[verifier::external_body]
     pub fn get_entry_data_as_u32_array(&self, tag: T) -> (r: Result<Vec<u32>, Error>)
         ensures match get_u32arr(*self, tag.spec_to_u32()) { Some(d) => r is Ok && r->Ok_0@ == d, None => r is Err },
+            (r is Err && entry_of(*self, tag.spec_to_u32()) is None) ==> r->Err_0 is TagNotFound,
+    { unimplemented!() }
+    /// V:c05_getters (over the find_entry_or_err contract)
+    #[verifier::external_body]
+    pub fn get_entry_data_as_u64_array(&self, tag: T) -> (r: Result<Vec<u64>, Error>)
+        ensures match get_u64arr(*self, tag.spec_to_u32()) { Some(d) => r is Ok && r->Ok_0@ == d, None => r is Err },
             (r is Err && entry_of(*self, tag.spec_to_u32()) is None) ==> r->Err_0 is TagNotFound,
     { unimplemented!() }
     #[verifier::external_body]
